@@ -180,7 +180,11 @@ func (d *TDesc) String() string {
 }
 
 // valueTokens writes a value of the described type in token form. Map members are sorted by key.
-func valueTokens(sb *strings.Builder, d *TDesc, v reflect.Value) {
+func valueTokens(sb *strings.Builder, d *TDesc, v reflect.Value) { valueTokensX(sb, d, v, nil) }
+
+// valueTokensX is valueTokens with a hook: a non-nil EMBEDDED pointer for whose target asNil answers
+// true is written like a nil one (the C16 oracle: a struct that contributes no member).
+func valueTokensX(sb *strings.Builder, d *TDesc, v reflect.Value, asNil func(*TDesc, reflect.Value) bool) {
 	switch d.Kind {
 	case "bool":
 		if v.Bool() {
@@ -215,7 +219,7 @@ func valueTokens(sb *strings.Builder, d *TDesc, v reflect.Value) {
 		ed := mustDescribe(e.Type())
 		sb.WriteString("j ")
 		ed.Tokens(sb)
-		valueTokens(sb, ed, e)
+		valueTokensX(sb, ed, e, asNil)
 	case "slice":
 		if v.IsNil() {
 			sb.WriteString("L ")
@@ -223,12 +227,12 @@ func valueTokens(sb *strings.Builder, d *TDesc, v reflect.Value) {
 		}
 		fmt.Fprintf(sb, "l %d ", v.Len())
 		for i := 0; i < v.Len(); i++ {
-			valueTokens(sb, d.Elem, v.Index(i))
+			valueTokensX(sb, d.Elem, v.Index(i), asNil)
 		}
 	case "array":
 		fmt.Fprintf(sb, "a %d ", v.Len())
 		for i := 0; i < v.Len(); i++ {
-			valueTokens(sb, d.Elem, v.Index(i))
+			valueTokensX(sb, d.Elem, v.Index(i), asNil)
 		}
 	case "map":
 		if v.IsNil() {
@@ -239,7 +243,7 @@ func valueTokens(sb *strings.Builder, d *TDesc, v reflect.Value) {
 		fmt.Fprintf(sb, "m %d ", len(keys))
 		for _, k := range keys {
 			fmt.Fprintf(sb, "%s ", lib.HexF([]byte(k)))
-			valueTokens(sb, d.Elem, v.MapIndex(reflect.ValueOf(k)))
+			valueTokensX(sb, d.Elem, v.MapIndex(reflect.ValueOf(k)), asNil)
 		}
 	case "ptr":
 		if v.IsNil() {
@@ -247,11 +251,16 @@ func valueTokens(sb *strings.Builder, d *TDesc, v reflect.Value) {
 			return
 		}
 		sb.WriteString("p ")
-		valueTokens(sb, d.Elem, v.Elem())
+		valueTokensX(sb, d.Elem, v.Elem(), asNil)
 	case "struct":
 		fmt.Fprintf(sb, "r %d ", len(d.Fields))
 		for i, f := range d.Fields {
-			valueTokens(sb, f.Type, v.Field(i))
+			fv := v.Field(i)
+			if asNil != nil && f.Embedded && f.Type.Kind == "ptr" && !fv.IsNil() && asNil(f.Type.Elem, fv.Elem()) {
+				sb.WriteString("P ")
+				continue
+			}
+			valueTokensX(sb, f.Type, fv, asNil)
 		}
 	}
 }
